@@ -1313,3 +1313,36 @@ func isTableLookup(e ast.Expr) bool {
 	_, isID := ast.Unparen(ix.X).(*ast.Ident)
 	return isID
 }
+
+// mapLiteralKeysUsed returns the string keys of the package-level map
+// literals that fn refers to (a lookup table that replaces a switch over
+// names).
+func mapLiteralKeysUsed(c *core.Ctx, fn *core.Func) map[string]bool {
+	out := map[string]bool{}
+	info := fn.Info()
+	ast.Inspect(fn.Decl.Body, func(n ast.Node) bool {
+		id, ok := n.(*ast.Ident)
+		if !ok {
+			return true
+		}
+		tv, ok := info.Uses[id].(*types.Var)
+		if !ok || tv.Pkg() == nil || tv.Parent() != tv.Pkg().Scope() {
+			return true
+		}
+		if _, isMap := tv.Type().Underlying().(*types.Map); !isMap {
+			return true
+		}
+		_, init, ipkg := c.Prog.Var(core.ShortPkg(tv.Pkg().Path()), tv.Name())
+		if cl, isCL := ast.Unparen(init).(*ast.CompositeLit); init != nil && isCL {
+			for _, el := range cl.Elts {
+				if kv, isKV := el.(*ast.KeyValueExpr); isKV {
+					if s, isS := core.StringConst(ipkg.TypesInfo, kv.Key); isS {
+						out[s] = true
+					}
+				}
+			}
+		}
+		return true
+	})
+	return out
+}
